@@ -144,6 +144,19 @@ extern bool cmb_resourceguard_cancel(struct cmb_resourceguard *rgp,
                                      struct cmb_process *pp);
 
 /**
+ * @brief Take back whatever belongs to a wait that the process leaves for
+ *        another reason than being granted: its queue entry, or, if it has
+ *        been granted already, the pending wakeup, which is then passed on to
+ *        the next waiting process. Internal use.
+ *
+ * @memberof cmb_resourceguard
+ * @param rgp Pointer to a resource guard.
+ * @param pp Pointer to the process leaving the wait.
+ */
+extern void cmi_resourceguard_withdraw(struct cmb_resourceguard *rgp,
+                                       struct cmb_process *pp);
+
+/**
  * @brief Remove this process from the priority queue without resuming it.
  *
  * @param rgp Pointer to a resource guard.
